@@ -7,6 +7,8 @@ groups, nesting depth, exits, challenges or environment sizes).
 import AcmedVerif.Model.Hooks
 import AcmedVerif.Spec.C10
 import AcmedVerif.Lemmas.Hooks
+import AcmedVerif.Gen.Tables
+import AcmedVerif.Props.C02
 
 namespace AcmedVerif.Props.C10
 open AcmedVerif.Hooks AcmedVerif.Spec.C10
@@ -532,5 +534,38 @@ example :
         .post d2], false, []) := by decide
 
 end Examples
+
+end AcmedVerif.Props.C10
+
+/-! ## Tie to the compiled code: the serde member names of the three hook data structures
+
+`AcmedVerif.Gen.hookDataMembers` is regenerated on every run by `py/gen.py: gen_tables()` from the
+COMPILED crate (probe op `tables` serialises one value of each structure with serde_json and lists
+the keys).  The probe labels the three rows by the hook family; `compiledStructs` gives them the
+names of the Rust structures (`Hooks.dataStruct`).  Removing or renaming a member that the man page
+documents in `hooks.rs` makes `documented_vars_in_compiled_structs` fail to check. -/
+
+namespace AcmedVerif.Props.C10
+open AcmedVerif.Hooks
+
+/-- Row label of `Gen.hookDataMembers` → Rust structure name (a row already labelled with a structure
+name is kept). -/
+def structOfLabel (s : String) : String :=
+  if s == "post-operation" then "PostOperationHookData"
+  else if s == "challenge" then "ChallengeHookData"
+  else if s == "file" then "FileStorageHookData"
+  else s
+
+def compiledStructs : List (String × List String) :=
+  AcmedVerif.Gen.hookDataMembers.map fun p => (structOfLabel p.1, p.2)
+
+theorem documented_vars_in_compiled_structs : Hooks.coversDocumented compiledStructs = true := by
+  decide
+
+/-- Every variable the man page documents for a hook type is a member of the structure the compiled
+code serialises into the template context for that type. -/
+theorem documented_vars_compiled :
+    ∀ ty v, v ∈ documentedVars ty → v ∈ membersOf compiledStructs (dataStruct ty) :=
+  documented_vars_provided compiledStructs documented_vars_in_compiled_structs
 
 end AcmedVerif.Props.C10
